@@ -831,6 +831,12 @@ def _unify_var(
         return unify(subst[var], t, subst)
     if isinstance(t, ExistentialTypeVar) and t in subst:
         return unify(var, subst[t], subst)
+    # Resolve variables in `t` that are already solved, so that the occurs check also
+    # catches cycles through them (e.g. `?A := (?B)` after `?B := list[?A]`)
+    from guppylang_internals.tys.subst import Substituter
+
+    while t.unsolved_vars & subst.keys():
+        t = t.transform(Substituter(subst))
     if var in t.unsolved_vars:
         return None
     return {var: t, **subst}
